@@ -111,7 +111,7 @@ def run(tier):
             rng = ScriptedRNG([], qseq=vals)
             X.Tap.current = rng
             try:
-                signal.alarm(20)
+                signal.alarm(180)
                 mg = mol.generate(rng=rng)
                 signal.alarm(0)
             except Timeout:
